@@ -30,6 +30,16 @@ tokenizer only ever inspect ASCII code points, so nothing depends on the UTF-8 b
                    `<!--HEAD-->` marker, then the registered `<meta>` tags.  `headHtmlOld`: the code
                    before the repair of F-C06-2 (title pushed raw), kept for the regression witness.
 
+* `titleAsString` — `TitleContext::as_string` (meta/src/title.rs): innermost text through innermost formatter.
+* `docHtmlImpl`  — the whole first chunk as `inject_meta_context` builds it, including the string searches
+                   `find("<html")` / `find("<body")` that place the `<Html/>` / `<Body/>` attribute strings
+                   (`bodyAttrsAfterHead`: code as it is vs. after hooks/fix-c06-2.patch).
+* `islandOpen`, `VNode.island`, `VNode.islandChildren` — `Island::open_tag` / `IslandChildren`
+                   (tachys/src/html/islands.rs): the only attribute tachys writes by hand on the SSR path
+                   (`data-props` through `encode_double_quoted_attribute`; `data-component` is program text).
+                   Other hand-written `="`: `StaticAttr` (nightly const generics, macro side: C18), `ToTemplate`
+                   (client-side `<template>`), ssr/mod.rs `<template id=…>` / `<script nonce=…>` (streaming: C07).
+
 ## Part 3 — `parse`: a subset of the WHATWG tokenizer + "in body" tree builder (scripting enabled)
 One character is consumed per `step`; `run` is structurally recursive on the input, so closed
 instances reduce by `decide`.  Tokenizer states covered: data, RCDATA (`title`, `textarea`),
@@ -238,6 +248,33 @@ def sShellEnd : Str := ['>','<','/','b','o','d','y','>','<','/','h','t','m','l',
 def docHtml (htmlAttrs : List Attr) (title : Option Str) (metas : List Node) (bodyAttrs : List Attr) : Str :=
   sShellOpen ++ attrsHtml htmlAttrs ++ sShellHead ++ headHtml title metas ++ sShellBody ++
     attrsHtml bodyAttrs ++ sShellEnd
+
+/-- `s.find(pat)` + `insert_str` right after the match; unchanged when `pat` does not occur -/
+def insertAfterFirst (pat ins : Str) : Str → Str
+  | [] => []
+  | c :: cs =>
+    if pat.isPrefixOf (c :: cs) then pat ++ ins ++ (c :: cs).drop pat.length
+    else c :: insertAfterFirst pat ins cs
+
+def sLtHtml : Str := ['<','h','t','m','l']
+def sLtBody : Str := ['<','b','o','d','y']
+def sShellPre : Str := ['<','!','D','O','C','T','Y','P','E',' ','h','t','m','l','>','<','h','t','m','l','>','<','h','e','a','d','>']
+def sShellPost : Str := ['<','/','h','e','a','d','>','<','b','o','d','y','>','<','/','b','o','d','y','>','<','/','h','t','m','l','>']
+
+/-- does `inject_meta_context` look for `<body` only behind the head it has just written?
+`false`: the code as it is (F-C06-5: `modified_chunk.find("<body")` over the whole chunk, so a `<body`
+inside text registered into the head — the content of a `<Script/>` or `<Style/>` — takes the
+attributes); `true`: after `hooks/fix-c06-2.patch`.  Flip when the fix is applied. -/
+def bodyAttrsAfterHead : Bool := true
+
+/-- the first chunk after `inject_meta_context`, exactly as the code builds it: head insertion, then the
+`<Html/>` attribute strings after the first `<html`, then the `<Body/>` attribute strings after the
+first `<body` (of the whole chunk, or of the part behind the head) -/
+def docHtmlImpl (afterHead : Bool) (hs : Str) (title : Option Str) (metas : List Node) (bs : Str) : Str :=
+  if afterHead then
+    insertAfterFirst sLtHtml hs (sShellPre ++ headHtml title metas) ++ insertAfterFirst sLtBody bs sShellPost
+  else
+    insertAfterFirst sLtBody bs (insertAfterFirst sLtHtml hs (sShellPre ++ headHtml title metas ++ sShellPost))
 
 def tProbe : Str := ['x','-','a']
 
